@@ -74,9 +74,38 @@ CHECKS["C18"] = ("fault_enumeration", "exhaustive enumeration of (worker, crash 
                  "is reported as a hang; thorough adds real-process replays", BASE_TRUST + "; bounded time is decided in virtual time",
                  "3 C18, 2.6", "SchedMC")
 
+EXP = "exploration"
+CHECKS["C13"] = (EXP, "exhaustive enumeration of a finite (model, meaning-preserving rewrite, configuration) grid; differential runs of the real solver (RewriteMC)",
+                 "models of U (every sharing layout) and shipped models converted from the real Problem objects x de-sharing, all "
+                 "constraint / variable permutations (<= 4), duplication, always-true constraints, translation: solution sets and "
+                 "optima of the two writings are compared; exploration level because the grid of models is a chosen finite set",
+                 BASE_TRUST, "3 C13", "RewriteMC")
+CHECKS["C15"] = (MC, "exhaustive enumeration of histories of solver use (words over 7 operations up to a length, each in a child forked from a pristine "
+                     "process) + differential JIT/interpreted runs of a universe slice in fresh processes, forward and reverse order",
+                 "every history up to the bound is followed by a fixed probe whose observable outcome must equal the pristine one, in both "
+                 "modes; every case of the slice must give identical solution sequences and statistics compiled vs interpreted, twice in "
+                 "one process, and whatever was solved before it", BASE_TRUST + "; compiled runs use a private numba cache keyed by the source hash",
+                 "3 C15", "ModeMC+HistoryMC")
+CHECKS["C16"] = (MC, "PropMC + SolveMC under bounds monitors: IndexError in interpreted mode, NUMBA_BOUNDSCHECK=1 in compiled sub-processes",
+                 "every filtering call of the contract table and every solver run on U is executed with array bounds monitored "
+                 "(interpreted: numpy raises IndexError; compiled: numba bounds checking, stderr captured for calls through addresses)",
+                 BASE_TRUST, "3 C16", "PropMC+SolveMC")
+CHECKS["C19"] = (EXP, "exhaustive enumeration of a finite capacity grid (stack heights x depths x heuristics x modes, sizes around 8/16-bit limits) in sub-processes",
+                 "each grid point runs interpreted, compiled and compiled with bounds checking; accepted outcomes are a deliberate error "
+                 "or exactly the reference result with no out-of-range access; crash, hang, wrong result, IndexError are violations",
+                 "closed-form solution set of the chain model; sub-process isolation; time budgets per point", "3 C19", "CapacityMC")
+CHECKS["C20"] = (EXP, "exhaustive enumeration of a finite grid of shipped models x instances x symmetry breaking x configurations x processes; definition-level validators",
+                 "every solution of every case is validated against the problem definition, counts and optima against literature / brute "
+                 "force, configurations against each other, satisfiability with vs without symmetry breaking", 
+                 "validators of mc/shipworker.py (written from CSPLib problem statements); literature counts", "3 C20", "ShippedMC")
+
 NOT_YET = {}
 
 ENGINES = [
+    {"name": "RewriteMC", "path": "mc/props/C13.py", "kind_free_text": "finite grid of meaning-preserving model rewrites, differential runs of the real solver"},
+    {"name": "ModeMC+HistoryMC", "path": "mc/modeworker.py", "kind_free_text": "fresh-process differential runs (JIT vs interpreted, forward vs reverse order) and exhaustive enumeration of histories of solver use forked from a pristine process"},
+    {"name": "CapacityMC", "path": "mc/props/C19.py", "kind_free_text": "finite capacity grid run in isolated sub-processes in three modes"},
+    {"name": "ShippedMC", "path": "mc/props/C20.py", "kind_free_text": "shipped models x instance grid in compiled mode with definition-level validators"},
     {"name": "EngineMC", "path": "mc/enginemc.py", "kind_free_text": "explicit-state search over the solver arrays of the real engine: real consistency algorithms, value heuristics and backtrack as transitions, variable choice nondeterministic, visited-set on a canonical form"},
     {"name": "StackMC", "path": "mc/props/C09.py", "kind_free_text": "explicit-state search over operation sequences of the real choice-point stack in lock-step with a reference frame stack"},
     {"name": "SchedMC", "path": "mc/schedmc.py", "kind_free_text": "controlled scheduler + fault injector for the real MultiprocessingSolver parent (fake Process/Queue), stateless deviation-bounded exploration with prefix replay"},
